@@ -856,6 +856,8 @@ pub static LOG_RECORDS: std::sync::atomic::AtomicU64 = std::sync::atomic::Atomic
 pub static LOG_BYTES: std::sync::atomic::AtomicU64 = std::sync::atomic::AtomicU64::new(0);
 static LOGGING_ON: std::sync::atomic::AtomicBool = std::sync::atomic::AtomicBool::new(false);
 /// how often the logger used the library itself, and how often what it did there went wrong (see `Sink::log`)
+/// how often the background thread moved the process's log level (see `install_log_sink`)
+pub static LEVEL_CHANGES: std::sync::atomic::AtomicU64 = std::sync::atomic::AtomicU64::new(0);
 pub static LOGGER_REENTRIES: std::sync::atomic::AtomicU64 = std::sync::atomic::AtomicU64::new(0);
 pub static LOGGER_TROUBLE: std::sync::atomic::AtomicU64 = std::sync::atomic::AtomicU64::new(0);
 thread_local! {
@@ -928,6 +930,23 @@ pub fn install_log_sink() {
     if log::set_logger(&SINK).is_ok() {
         log::set_max_level(log::LevelFilter::Trace);
         LOGGING_ON.store(true, Ordering::Relaxed);
+        // The process's log level is part of the environment too (a `log` macro evaluates its arguments only for records the
+        // level admits, and `log_enabled!` branches on it), and an application may run at ANY level. A background thread
+        // moves the level through all of them while the workloads run — Trace half of the time, the others in turn, a few
+        // milliseconds each. Correct code behaves alike at every level, so this can never raise a false alarm; what a
+        // level-dependent defect needs is for some workload to meet its level, which over millions of calls it does.
+        std::thread::spawn(|| {
+            let levels = [log::LevelFilter::Debug, log::LevelFilter::Info, log::LevelFilter::Warn, log::LevelFilter::Error, log::LevelFilter::Off];
+            let mut k = 0usize;
+            loop {
+                log::set_max_level(log::LevelFilter::Trace);
+                std::thread::sleep(std::time::Duration::from_millis(6));
+                log::set_max_level(levels[k % levels.len()]);
+                LEVEL_CHANGES.fetch_add(1, Ordering::Relaxed);
+                k += 1;
+                std::thread::sleep(std::time::Duration::from_millis(if k % 5 == 2 { 9 } else { 4 }));
+            }
+        });
     }
 }
 
